@@ -310,3 +310,17 @@ Proof.
   destruct (ut_int_path _ _ _ _ _ Hb H2 Hl) as (Nb & Db & Tb & Ub & _).
   rewrite Na, Nb, Da, Db, Ta, Tb, Ua, Ub, Hk, Hz. repeat split.
 Qed.
+
+(* rebuilding an axis from a (self-consistent) axis, nothing else given: the identical axis *)
+Theorem ut_from_axis_identical d ax :
+  0 < ax_dt d -> ax_dur d = ax_n d * ax_dt d -> 0 <= ax_n d ->
+  ut_new (mk_ut_args (Some d) None None None None None UArgNone) = TOk ax ->
+  ax_n ax = ax_n d /\ ax_t0 ax = ax_t0 d /\ ax_dt ax = ax_dt d /\ ax_dur ax = ax_dur d /\
+  ax_rate ax = ax_rate d /\ ax_unit ax = ax_unit d.
+Proof.
+  intros Hp Hd Hn. unfold ut_new. simpl. intros H.
+  apply lay_out_inv in H as (dt & du & t0 & n & Hdt & Hdu & Ht0 & Hlen & ->).
+  apply to_ps_time in Hdt, Hdu, Ht0. subst dt du t0. simpl.
+  apply arange_len_ok in Hlen as (_ & -> & _).
+  rewrite Hd, cdivz_mul by exact Hp. repeat split; lia.
+Qed.
